@@ -139,6 +139,30 @@ def parse_fail(line):
         return {"key": "unparsable", "message": line.strip()[:2000]}
 
 
+FATAL_OOM_RE = re.compile(r"^(fatal error: (runtime: )?out of memory|fatal error: runtime: cannot allocate memory|runtime: out of memory: cannot allocate)", re.M)
+
+
+def analyse_crash(text, prop_id):
+    """A worker that the Go runtime ended with a fatal out-of-memory error: when the goroutine that asked
+    for the memory is inside notation-go (called from the harness with a small input), the death of the
+    process IS the robustness violation, not an infrastructure problem. Returns a failure dict or None."""
+    m = FATAL_OOM_RE.search(text)
+    if not m:
+        return None
+    rest = text[m.start():]
+    g = re.search(r"^goroutine \d+ (?:gp=\S+ m=\S+(?: mp=\S+)? )?\[running[^\]]*\]:\n(.*?)(?:\n\n|\Z)", rest, re.M | re.S)
+    if not g:
+        return None
+    frames = re.findall(r"^([A-Za-z0-9_./\-]+(?:\.[^\s(]+|\([^)]*\)[^\s(]*)*)\(", g.group(1), re.M)
+    lib = [f for f in frames if f.startswith("github.com/notaryproject/notation-go")]
+    if not lib:
+        return None
+    first = re.sub(r"\(\*?([A-Za-z0-9_]+)\)", r"\1", lib[0].replace("github.com/notaryproject/notation-go/", ""))
+    stack = "\n".join(l for l in g.group(1).splitlines() if not l.startswith("\t"))[:1500]
+    return {"key": "%s:fatal-out-of-memory:%s" % (prop_id, first), "kind": "crash", "test": None, "failfile": None,
+            "message": "the worker process was ended by the Go runtime (%s) while library code was allocating; frames of the allocating goroutine:\n%s" % (m.group(0).strip(), stack)}
+
+
 def analyse_output(text):
     """Return list of failures found in one shard's output.
     Each: dict(key, message, case, test, failfile, kind)."""
@@ -310,11 +334,13 @@ def save_replay(prop_id, f, shard_cwd, shard_log, tier, seed):
     return os.path.relpath(path, VERIF)
 
 
-def run_shards(prop_id, cfg, binpath, tier, seed, run_regex, extra_env=None, extra_args=None, shards=None, timeout=None):
+def run_shards(prop_id, cfg, binpath, tier, seed, run_regex, extra_env=None, extra_args=None, shards=None, timeout=None, only_shard=None):
     nsh = shards or cfg.get("shards", {}).get(tier, 8)
     known = known_findings(prop_id)
     procs = []
     for i in range(nsh):
+        if only_shard is not None and i != only_shard:
+            continue
         cwd = os.path.join(WORK, "run", "shard%d" % i)
         sdir = os.path.join(WORK, "stats", "shard%d" % i)
         tmpd = os.path.join(WORK, "tmp", "shard%d" % i)
@@ -440,6 +466,11 @@ def do_check(prop_id, tier, seed):
     for i, rc, logp, cwd in results:
         text = open(logp, errors="replace").read()
         fails = analyse_output(text) if rc != 0 else []
+        if rc != 0 and not fails and cfg.get("crash_is_violation"):
+            cf = analyse_crash(text, prop_id)
+            if cf:
+                cf["case"] = {"shard": i, "shards": len(results), "tier": tier, "seed": seed, "note": "re-run this shard: the case that killed the worker could not be saved by the dying process"}
+                fails = [cf]
         if rc != 0 and not fails:
             infra.append((i, rc, logp))
         for f in fails:
@@ -499,6 +530,20 @@ def do_replay(prop_id, path):
     binpath = build(prop_id, cfg)
     if binpath is None:
         return 2
+    if desc.get("kind") == "crash" and isinstance(desc.get("case"), dict):
+        c = desc["case"]
+        results, timed_out = run_shards(prop_id, cfg, binpath, c.get("tier", "quick"), int(c.get("seed") or 1), cfg.get("run", "^Test" + prop_id + "_"),
+                                        shards=int(c.get("shards") or 1), only_shard=int(c.get("shard") or 0), timeout=3600)
+        i, rc, logp, cwd = results[0]
+        text = open(logp, errors="replace").read()
+        sys.stdout.write(text[-4000:])
+        if rc != 0 and (analyse_output(text) or analyse_crash(text, prop_id)):
+            log("VIOLATION property=%s replay=%s" % (prop_id, os.path.relpath(path, VERIF)))
+            return 1
+        if rc != 0:
+            return 2
+        log("[driver] replay passed (the violation does not reproduce on the current tree)")
+        return 0
     test = desc.get("test") or ""
     top = test.split("/")[0] if test else "^Test" + prop_id + "_"
     extra_args, extra_env = [], {"VERIF_REPLAY": path}
